@@ -10,7 +10,6 @@ import (
 	"sort"
 	"strings"
 
-	"github.com/smartcontractkit/chainlink-data-streams/mercury"
 )
 
 func init() {
@@ -37,12 +36,7 @@ func mercVersion(name string) int {
 }
 
 func mercI192Val(h any) (*big.Int, bool) {
-	b := jBytes(h)
-	v, err := mercury.DecodeValueInt192(b)
-	if err != nil {
-		return nil, false
-	}
-	return v, true
+	return indepDecInt192(jBytes(h))
 }
 
 // mercDropped: would parseAttributedObservation reject this observation?  (independent transcription
